@@ -32,6 +32,16 @@ impl Driven for D {
          _ => panic!("verif harness: unknown relation {}", rel),
       }
    }
+   fn clear(&mut self, rel: &str) {
+      match rel {
+         "e_rn" => { self.0.e_rn = Default::default(); },
+         "p_rn" => { self.0.p_rn = Default::default(); },
+         "node_rn" => { self.0.node_rn = Default::default(); },
+         "unreach_rn" => { self.0.unreach_rn = Default::default(); },
+         "sink_rn" => { self.0.sink_rn = Default::default(); },
+         _ => panic!("verif harness: unknown relation {}", rel),
+      }
+   }
    fn run(&mut self) { self.0.run(); }
    fn dump(&self) -> Value {
       let mut m: Vec<(String, Value)> = vec![];
